@@ -121,10 +121,10 @@ def units(tier, seed):
 # ------------------------------------------------------------------------------------------------
 
 
-def make_target(pattern, dims):
+def make_target(pattern, dims, prov="C"):
     items = S.items_for(pattern)
     f = S.val_base(6, 0)(tuple(dims), items)
-    X = S.flodym_array(tuple(dims), items, f, "C")
+    X = S.flodym_array(tuple(dims), items, f, prov)
     m = R.build(tuple(dims), items, f)
     return X, m, items
 
@@ -509,11 +509,11 @@ def run_errors(u, res):
 # ---- items_where / split -------------------------------------------------------------------------
 
 
-def run_where_case(pattern, dims, marked):
+def run_where_case(pattern, dims, marked, prov="C"):
     dims = tuple(dims)
-    X, m, items = make_target(pattern, dims)
+    X, m, items = make_target(pattern, dims, prov)
     labs = list(m.labels())
-    case = dict(kind="where", pattern=pattern, dims="".join(dims), marked=marked)
+    case = dict(kind="where", pattern=pattern, dims="".join(dims), marked=marked, prov=prov)
     for k in marked:
         X.values[tuple(items[l].index(it) for l, it in zip(dims, labs[k]))] = -99.0
     st, got = attempt(lambda: X.items_where(lambda v: v == -99.0))
@@ -586,8 +586,8 @@ def run_where(u, res):
     X, m, items = make_target(u["pattern"], tuple(u["dims"]))
     n = len(m.data)
     marks = [[k] for k in range(n)] + [[i, j] for i in range(n) for j in range(i + 1, n) if n <= 12 or (i + j) % 5 == 0]
-    for marked in marks:
-        oc, f = run_where_case(u["pattern"], u["dims"], marked)
+    for mi, marked in enumerate(marks):
+        oc, f = run_where_case(u["pattern"], u["dims"], marked, ("C", "F", "transposed", "view")[mi % 4])
         res["evals"] += 1
         res["nontrivial"] += 1 if n > 1 else 0
         res["outcomes"][oc] = res["outcomes"].get(oc, 0) + 1
@@ -626,7 +626,7 @@ def replay(case):
     elif k == "errors":
         oc, f = run_err_case(case["ekind"], case["spec"], case["mode"])
     elif k == "where":
-        oc, f = run_where_case(case["pattern"], case["dims"], case["marked"])
+        oc, f = run_where_case(case["pattern"], case["dims"], case["marked"], case.get("prov", "C"))
     elif k == "where-long":
         oc, f = run_where_long_case(case["dims"], case["marked"])
     else:
